@@ -192,7 +192,10 @@ def scenario_recreated_file(kind: str, d: str):
     viol, obs = [], {}
     assert x.acquire()
     x.release()
-    os.unlink(path)
+    try:
+        os.unlink(path)
+    except FileNotFoundError:
+        pass        # an implementation that removes its lock file on release: nothing to re-create
     y = mk(kind, path, 0.4)
     obs["y_acquired"] = acquire_nb(y)
     obs["x_nonblocking_while_y_holds"] = acquire_nb(x)
